@@ -432,7 +432,11 @@ func inReplay(b *inBeh, steps int, solo map[string]inResult) (out []inMismatch) 
 				break
 			}
 		}
-		s := solo[inSoloKey(b.Want[i], b.Tx[i], i+1)]
+		s, have := solo[inSoloKey(b.Want[i], b.Tx[i], i+1)]
+		if !have {
+			fmt.Fprintf(os.Stderr, "harness: no solo run for configuration %s\n", inSoloKey(b.Want[i], b.Tx[i], i+1))
+			os.Exit(2)
+		}
 		if r.Digest != s.Digest {
 			miss("in.isolation", "%s: observable outcome differs from the same instance running alone:\n  here : %s\n  alone: %s", desc, r.Detail, s.Detail)
 		}
@@ -468,7 +472,7 @@ func instancesCmd(args []string) int {
 	var keys []string
 	// the context-writer transactions first, readers before writers: a reader's first solo run sees a process in which nothing has run yet
 	for _, tx := range []string{"R", "W"} {
-		for _, w := range []int{0, 1} {
+		for _, w := range []int{0, 1, 2, 3} {
 			for idx := 1; idx <= 2; idx++ {
 				keys = append(keys, inSoloKey(w, tx, idx))
 			}
